@@ -482,6 +482,11 @@ impl Group for Chain {
         ext.add_present_internal("recache", present!(data, { *data.server_cache_preference = comprash::ServerCachePreference::Full; }));
         let mut host = Host::unsecure("localhost", "/nonexistent", ext, host::Options::default());
         host.limiter.disable();
+        // every other case: the host's own additions on top (HSTS and the http->https redirect are Package / Prime extensions
+        // with priorities of their own): the security headers stay
+        if line.len() % 2 == 0 {
+            host.with_hsts();
+        }
         let data = HostCollection::builder().insert(host).build();
         let Some(srv) = TestServer::try_start(data) else { return "inconclusive: server did not start".into() };
         let Some(stream) = crate::server::connect_retry(srv.port) else { srv.stop(); return "inconclusive: connect".into() };
